@@ -532,7 +532,12 @@ func makeType(runInfo *runInfoStruct, typeStruct *ast.TypeStruct) reflect.Type {
 		if t == nil {
 			return nil
 		}
-		return reflect.ChanOf(reflect.BothDir, t)
+		if !runInfo.options.Debug {
+			// captures panic
+			defer recoverFunc(runInfo)
+		}
+		t = reflect.ChanOf(reflect.BothDir, t)
+		return t
 	case ast.TypeStructType:
 		var t reflect.Type
 		fields := make([]reflect.StructField, 0, len(typeStruct.StructNames))
